@@ -158,7 +158,8 @@ def generate(ctx):
                                  row_kinds=['auto', 'str', 'int'], col_kinds=['str', 'int'])
             lay = rng.choice(F.layouts(spec.dtypes))
             mask = [[rng.random() < 0.4 for _ in range(spec.shape[1])] for _ in range(spec.shape[0])]
-            yield {'kind': 'bloc', 'spec': spec, 'layout': lay, 'mask': mask, 'permute': rng.random() < 0.5}
+            yield {'kind': 'bloc', 'spec': spec, 'layout': lay, 'mask': mask, 'permute': rng.random() < 0.5,
+                   'permute_cols': rng.choice([None, None, 'reversed', 'rotated'])}
 
 
 # --------------------------------------------------------------------------------------
@@ -537,11 +538,16 @@ def _check_bloc(case, ctx):
     m = sf.Frame(np.array(mask, dtype=bool).reshape(nr, nc), index=rows, columns=cols)
     if case['permute'] and nr > 1:
         m = m.iloc[::-1]
+    pc = case.get('permute_cols')
+    if pc == 'reversed' and nc > 1:
+        m = m.iloc[:, ::-1]   # same shape, same row labels, columns in another order: still aligned by label
+    elif pc == 'rotated' and nc > 1:
+        m = m.iloc[:, list(range(1, nc)) + [0]]
     n_true = sum(sum(r) for r in mask)
     ctx.evaluation(('bloc', repr(spec), repr(lay), repr(mask), case['permute']), 0 < n_true < nr * nc)
     ctx.tally('route', 'frame.bloc')
     out, exc = _call(lambda: f.bloc[m])
-    klass = {'kind': 'bloc', 'permute': case['permute']}
+    klass = {'kind': 'bloc', 'permute': case['permute'], 'permute_cols': pc}
     if exc is not None:
         ctx.violation('valid_key_raised', detail={'exception': type(exc).__name__, 'message': str(exc)[:300]},
                       klass=dict(klass, exception=type(exc).__name__))
